@@ -54,4 +54,23 @@ def comfortStandbyGuarded : Bool :=
 
 theorem comfort_to_standby_is_guarded : comfortStandbyGuarded = true := by decide +kernel
 
+/-- (b) on the regenerated transition table: whatever the trigger and the guard valuation, `heating_running` is left only towards one
+of the three `heating_delay_*` phases or `halt` — no path lets the pump stop or the cover move right after the heat pump without the
+post-run circulation; and a `heating_delay_*` phase is left only by its own timeout `heating_delayed`, by `halt`, or (towards another
+delay phase) by `heating_delay` / a request to open the pool. -/
+def delayLeaves : List Nat := [Filtration.leaf_heating_delay_none, Filtration.leaf_heating_delay_standby, Filtration.leaf_heating_delay_overflow]
+
+def heatingRunningExits : Bool :=
+  ((filtrationRows.getD Filtration.leaf_heating_running []).all fun r =>
+      r.internal || r.dest == Filtration.leaf_heating_running || r.dest == Filtration.leaf_halt || delayLeaves.contains r.dest) &&
+  (delayLeaves.all fun l => (filtrationRows.getD l []).all fun r =>
+      r.internal || r.dest == Filtration.leaf_halt || delayLeaves.contains r.dest || r.trig == Filtration.m_heating_delayed)
+
+theorem heating_running_exits : heatingRunningExits = true := by decide +kernel
+
+/-- non-vacuity: there are rows out of `heating_running` into a delay phase and out of a delay phase by its timeout -/
+example : ((filtrationRows.getD Filtration.leaf_heating_running []).any fun r => delayLeaves.contains r.dest) = true ∧
+    ((filtrationRows.getD Filtration.leaf_heating_delay_none []).any fun r => r.trig == Filtration.m_heating_delayed && !delayLeaves.contains r.dest) = true := by
+  decide +kernel
+
 end Poupool.C06
